@@ -7,6 +7,35 @@ TITLES = {json.loads(l)["id"]: json.loads(l)["title"] for l in open(os.path.join
 
 # id -> (technique, level text, level note, design ref)
 CLAIMED = {
+    "C01": ("TLA+ spec Ecdsa.tla over EC.tla/Num.tla: TLC exhaustive on small curves (MC_Ecdsa sign+DER cases), emitted rows replayed into "
+            "the retargeted bits.ecmath.sign with scripted draws, secp256k1 traces validated by TLC (Trace_Ecc, BigInteger-backed field ops)",
+            "Exhaustive model check of the signing retry loop (k=0, r=0, s=0, s negation) for all (d, z, first draw) of curves with 31..97 "
+            "points, incl. soundness against an independent discrete-log characterisation of validity and the strict-DER round trip; every "
+            "row replayed into the unmodified signing code retargeted to that curve; at secp256k1 size boundary keys/digests/draws, crafted "
+            "short-s signatures, all six flags in both preimage modes and signature pairs are judged by TLC evaluating the same spec "
+            "(range, low-S, verification under both key encodings, strict DER, flag byte, nonce clause) plus OpenSSL as standard verifier.",
+            "Trusts TLC, JDK BigInteger/SHA-256 behind Native (self-tested each run), OpenSSL for the 'standard verifier' column, and that "
+            "small curves exercise the same statements (curve constants are default arguments rebound by the harness). Full-size inputs are sampled, not exhaustive.",
+            "DESIGN.md 5/C01"),
+    "C02": ("TLA+ spec Ecdsa.tla (Verify, DerDec, Sec1Dec, EnsureLowS): TLC exhaustive over ALL (r,s) tuples on small curves (MC_Ecdsa verify "
+            "cases), every tuple replayed into the retargeted bits.ecmath.verify; secp256k1 mutation neighbourhoods validated by TLC (Trace_Ecc)",
+            "Exhaustive negative test the suite lacks: every (r, s) in (0..n+1)^2 x keys x digests x off-curve/infinity keys on 31- and 67-point "
+            "curves, with Verify proven equal to an independent discrete-log characterisation and symmetric under s -> n-s, each tuple replayed "
+            "into the code (accept iff the spec accepts); at full size valid signatures, range boundaries, bit flips of pk/msg/DER/sighash byte, "
+            "malformed keys, crafted-infinity tuples and ensure_sig_low_s outputs are judged by TLC.",
+            "Trusts TLC and the Native BigInteger/SHA-256 overrides; for non-strict DER inputs acceptance is judged against the integers the "
+            "library's own decoder produced; full-size mutation neighbourhoods are sampled (quick) / enumerated per bit for a few signatures (thorough).",
+            "DESIGN.md 5/C02"),
+    "C03": ("TLA+ spec EC.tla (4-way PointAdd, double-and-add machine): TLC over all points/pairs/(triples) of small curves (MC_EC, MC_EC_assoc), "
+            "every emitted sum/multiple replayed into the retargeted bits.ecmath; secp256k1 calls validated by TLC (Trace_Ecc)",
+            "Exhaustive model check of closure, identity, inverse, commutativity, scalar multiplication = repeated addition (with the loop "
+            "invariant), distributivity and (thorough) associativity over ALL points of curves with 31..97 points; all pair sums and scalar "
+            "multiples (k up to n+3) replayed into the unmodified point_add/point_scalar_mul; key generation for every draw; at secp256k1 size "
+            "boundary scalars (0,1,2,n-1,n,n+1,2^256-1,2^i), identity/inverse/doubling pairs and key byte strings judged by TLC with the group law "
+            "evaluated in TLA+ over BigInteger field operations.",
+            "Trusts TLC, JDK BigInteger behind Native (self-tested), and that small curves exercise the same statements as secp256k1. 'Independent "
+            "implementation' = the TLA+ group law evaluated by TLC.",
+            "DESIGN.md 5/C03"),
     "C07": ("TLA+ spec Base58.tla: TLC exhaustive at scaled+real radices (MC_Base58), TLC-generated rows replayed into "
             "bits.base58 (Gen_Base58), implementation traces validated by TLC (Trace_Base58)",
             "Exhaustive model check of inverse-ness and of the accept set at radices (4,3),(9,5) and (256,58) for short "
